@@ -1,6 +1,7 @@
 package main
 
 import (
+	"go/token"
 	"fmt"
 	"go/types"
 	"strconv"
@@ -182,6 +183,9 @@ func (fa *Facts) feasibleBlocks(f *ssa.Function, H map[string]bool) map[*ssa.Bas
 						ok = false
 					}
 				}
+				if ok && fa.boolCompareInfeasible(b, sc, H) {
+					ok = false
+				}
 				if ok && isPhiTestBlock(b) && b != f.Blocks[0] {
 					ok = false
 					for _, p := range b.Preds {
@@ -208,6 +212,9 @@ func (fa *Facts) infeasible(from, to *ssa.BasicBlock, H map[string]bool) bool {
 		if contradicts(a, H) {
 			return true
 		}
+	}
+	if fa.boolCompareInfeasible(from, to, H) {
+		return true
 	}
 	// branch on a phi: facts implied by every way of taking this edge
 	if len(from.Instrs) > 0 {
@@ -442,4 +449,82 @@ func intDisjoint(op1 string, k1 int64, op2 string, k2 int64) bool {
 		hi = hi2
 	}
 	return lo > hi
+}
+
+// truthUnder: +1 if the boolean value certainly holds under H, -1 if it certainly does not, 0 if unknown.
+func (fa *Facts) truthUnder(v ssa.Value, H map[string]bool) int {
+	pos := fa.condAtoms(v, true, 0)
+	negs := fa.condAtoms(v, false, 0)
+	allIn := func(as []string) bool {
+		if len(as) == 0 {
+			return false
+		}
+		for _, a := range as {
+			ca := canonAtom(a)
+			if !H[ca] {
+				// implied by a stronger assumption? (only the negation test is available)
+				return false
+			}
+		}
+		return true
+	}
+	anyContradicted := func(as []string) bool {
+		for _, a := range as {
+			if contradicts(canonAtom(a), H) {
+				return true
+			}
+		}
+		return false
+	}
+	switch {
+	case allIn(pos):
+		return 1
+	case allIn(negs):
+		return -1
+	case len(pos) == 1 && anyContradicted(pos):
+		return -1
+	case len(negs) == 1 && anyContradicted(negs):
+		return 1
+	}
+	return 0
+}
+
+// boolCompareInfeasible: the edge leaves a branch on the comparison of two boolean conditions
+// (c.server.LMTP != lmtp) and H fixes both sides so that the other branch is taken.
+func (fa *Facts) boolCompareInfeasible(from, to *ssa.BasicBlock, H map[string]bool) bool {
+	if len(from.Instrs) == 0 {
+		return false
+	}
+	iff, ok := from.Instrs[len(from.Instrs)-1].(*ssa.If)
+	if !ok || len(from.Succs) != 2 || from.Succs[0] == from.Succs[1] {
+		return false
+	}
+	cond := iff.Cond
+	neg := false
+	for {
+		u, ok := cond.(*ssa.UnOp)
+		if !ok || u.Op != token.NOT {
+			break
+		}
+		cond, neg = u.X, !neg
+	}
+	bo, ok := cond.(*ssa.BinOp)
+	if !ok || (bo.Op != token.EQL && bo.Op != token.NEQ) || !isBoolType(bo.X.Type()) {
+		return false
+	}
+	if _, isK := bo.X.(*ssa.Const); isK {
+		return false
+	}
+	if _, isK := bo.Y.(*ssa.Const); isK {
+		return false
+	}
+	x, y := fa.truthUnder(bo.X, H), fa.truthUnder(bo.Y, H)
+	if x == 0 || y == 0 {
+		return false
+	}
+	val := (x == y) == (bo.Op == token.EQL)
+	if neg {
+		val = !val
+	}
+	return val != (from.Succs[0] == to)
 }
